@@ -6,5 +6,6 @@ CONSTANTS
   MaxPanic = 0
   MaxEvents = 400
   NegGoals = FALSE
+  PanicPlans = FALSE
 INVARIANTS TypeOK ResultsCorrect InterruptSafe BoundedWork Replay
 CHECK_DEADLOCK TRUE
